@@ -25,12 +25,13 @@ USES_GEN = False
 
 META = {
     "technique": "Lean 4 proof (inductive invariant over a transition system with one transition per critical section; 12 transition kinds incl. spurious wake-ups and adversarial notify_one) + exact replay correspondence of the unmodified user_threadpool.cc under a controlled scheduler shim + bitwise compile-determinism oracle through the mjSpec C API",
-    "text": "For the model of ThreadPool in the compiler's usage pattern (construct N >= 1 workers, Schedule T tasks, WaitCount(T), destructor), for all N, T and every interleaving including spurious condition-variable wake-ups and any choice of the thread woken by each notify_one: no task body ever runs twice and no unscheduled task runs; once WaitCount(T) has returned every one of the T tasks has run exactly once, to completion, on the one worker thread that popped it (pool_exactly_once); ctr_ counts finished tasks plus exited workers and WaitCount cannot return before all T tasks are popped (pool_counter); without spurious wake-ups and whichever waiter notify_one picks, some thread can always take a step until the destructor has returned — WaitCount cannot block forever, no wake-up is lost, every join becomes enabled (pool_deadlock_free); when the destructor has returned all workers have exited and the queue is empty (pool_done_clean). Tasks that only replace their own slot of an asset array give the same array under every permutation of the execution order, and any order in which each task < T runs exactly once yields slot i = f_i(old slot i) (asset_tasks_schedule_independent, asset_result_exactly_once).",
-    "note": "Partial by design: the compiler itself (what a mesh / texture task computes, CopyFromSpec, the copy constructors of mjCModel, mj_recompile) is NOT modelled; that mesh and texture tasks write only their own asset is an assumption of asset_tasks_schedule_independent (the exception_ptr / warning-text slots are per-task or mutex-protected in the source, not modelled). One model transition = one critical section (all shared state of ThreadPool is accessed under m_); the hand-written model is tied to the source by replaying identical schedules on the unmodified user_threadpool.cc under the shim (exhaustive short schedules for small N, T + seeded random schedules with picks and spurious wake-ups) — the shim replaces the standard mutex/condition-variable/thread classes, so the memory-model aspects of the real primitives are outside the tie; real-thread runs with random yields check only the observable outcome. Termination under fair scheduling is not proved (deadlock freedom + the replay's round-robin completion are). Determinism / copy-invariance of compilation is sampled by the oracle only (bitwise over all mjModel arrays); src/xml is stubbed, so specs are built through the mjSpec C API; qhull is stubbed, so mesh geoms are non-colliding (no convex hulls) and builtin cone / wedge meshes cannot be compiled; the LengthRange pool use is not exercised.",
+    "text": "For the model of ThreadPool in the compiler's usage pattern (construct N >= 1 workers, Schedule T tasks, WaitCount(T), destructor), for all N, T and every interleaving including spurious condition-variable wake-ups and any choice of the thread woken by each notify_one: no task body ever runs twice and no unscheduled task runs; once WaitCount(T) has returned every one of the T tasks has run exactly once, to completion, on the one worker thread that popped it (pool_exactly_once); ctr_ counts finished tasks plus exited workers and WaitCount cannot return before all T tasks are popped (pool_counter); without spurious wake-ups and whichever waiter notify_one picks, some thread can always take a step until the destructor has returned — WaitCount cannot block forever, no wake-up is lost, every join becomes enabled (pool_deadlock_free); when the destructor has returned all workers have exited and the queue is empty (pool_done_clean); a ranking function strictly decreases on every such transition, so no run is longer than 6N + 7T + 4 transitions (pool_bounded_runs) and every run that cannot be extended has returned from the destructor with all T tasks executed exactly once and all workers exited (pool_terminates). Tasks that only replace their own slot of an asset array give the same array under every permutation of the execution order, and any order in which each task < T runs exactly once yields slot i = f_i(old slot i) (asset_tasks_schedule_independent, asset_result_exactly_once).",
+    "note": "Partial by design: the compiler itself (what a mesh / texture task computes, CopyFromSpec, the copy constructors of mjCModel, mj_recompile) is NOT modelled; that mesh and texture tasks write only their own asset is an assumption of asset_tasks_schedule_independent (the exception_ptr / warning-text slots are per-task or mutex-protected in the source, not modelled). One model transition = one critical section (all shared state of ThreadPool is accessed under m_); the hand-written model is tied to the source by replaying identical schedules on the unmodified user_threadpool.cc under the shim (exhaustive short schedules for small N, T + seeded random schedules with picks and spurious wake-ups) — the shim replaces the standard mutex/condition-variable/thread classes, so the memory-model aspects of the real primitives are outside the tie; real-thread runs with random yields check only the observable outcome. With spurious wake-ups runs are not bounded (a waiter may wake spuriously forever), so termination is proved for the relation without them only. Determinism / copy-invariance of compilation is sampled by the oracle only (bitwise over all mjModel arrays); src/xml is stubbed, so specs are built through the mjSpec C API; qhull is stubbed, so mesh geoms are non-colliding (no convex hulls) and builtin cone / wedge meshes cannot be compiled; the LengthRange pool use is not exercised.",
 }
 
 P = "MjProof.C33."
 THEOREMS = [P + t for t in ("pool_exactly_once", "pool_counter", "pool_deadlock_free", "pool_done_clean",
+                            "pool_bounded_runs", "pool_terminates",
                             "asset_tasks_schedule_independent", "asset_result_exactly_once")]
 
 
